@@ -618,15 +618,24 @@ package engine
 //@   modifies inferred
 //@   ensures step: cellOk(result) && frozen(result, c0) && rdData(result.reader) == d0
 
-//@ func matchBranch [C03 C09 C10]
+// Alternatives are tried in the order written: the machine continues with the first one and
+// leaves one checkpoint per further alternative, the second on top of the backtrack stack.
+//@ func matchBranch [C03 C09 C10 C01]
 //@   requires cellOk(current_state)
 //@   presumes len(i.Branches) >= 1
 //@   let c0 := *current_state
 //@   let d0 := rdData(current_state.reader)
+//@   let n := len(i.Branches)
+//@   let b0 := len(current_state.backtrack.store)
 //@   modifies inferred
 //@   ensures step: cellOk(result) && frozen(result, c0) && rdData(result.reader) == d0
+//@   ensures first: result.programCounter == i.Branches[0] && result.currentFileOffset == c0.currentFileOffset && result.currentMatch == c0.currentMatch [C01]
+//@   ensures alternatives: len(result.backtrack.store) == b0 + n - 1 && (forall p :: { result.backtrack.store[p] } b0 <= p && p < b0 + n - 1 ==> result.backtrack.store[p].programCounter == i.Branches[n - 1 - (p - b0)] && result.backtrack.store[p].currentFileOffset == c0.currentFileOffset && result.backtrack.store[p].currentMatch == c0.currentMatch) [C01]
 //@   loop 1 invariant cellOk(next_state) && frozen(next_state, c0) && rdData(next_state.reader) == d0 && len(flipped) == rangeindex + 1 && rangeindex + 1 <= len(i.Branches) && fresh(next_state)
+//@   loop 1 invariant order: len(next_state.backtrack.store) == b0 && next_state.currentFileOffset == c0.currentFileOffset && next_state.currentMatch == c0.currentMatch && (forall k :: { flipped[k] } 0 <= k && k <= rangeindex ==> flipped[k] == i.Branches[n - 1 - k]) [C01]
 //@   loop 2 invariant cellOk(next_state) && frozen(next_state, c0) && rdData(next_state.reader) == d0 && len(i.Branches) >= 1
+//@   loop 2 invariant pushed: len(flipped) == n && rangeindex + 1 <= n - 1 && len(next_state.backtrack.store) == b0 + rangeindex + 1 && next_state.currentFileOffset == c0.currentFileOffset && next_state.currentMatch == c0.currentMatch && (forall k :: { flipped[k] } 0 <= k && k < n ==> flipped[k] == i.Branches[n - 1 - k]) [C01]
+//@   loop 2 invariant snaps: forall p :: { next_state.backtrack.store[p] } b0 <= p && p <= b0 + rangeindex ==> next_state.backtrack.store[p].programCounter == i.Branches[n - 1 - (p - b0)] && next_state.backtrack.store[p].currentFileOffset == c0.currentFileOffset && next_state.backtrack.store[p].currentMatch == c0.currentMatch [C01]
 
 //@ func matchEndSubroutine [C03 C09 C10]
 //@   requires cellOk(current_state)
